@@ -293,7 +293,8 @@ def history_check(prop, tier, seed, jobs, nruns=None, force=None, only=None):
     restart_mismatch = []
     if prop == "C10" and results:
         every = RESTART_EVERY[tier]
-        sel = [r["run"] for r in results if r["run"] % every == (seed % every) and not r["error"]]
+        sel = [r["run"] for r in results if not r["error"]
+               and (r["run"] % every == (seed % every) or r["cfg"].get("congruent"))]
         hashseed = 1 + (seed * 7919 + 12345) % 4294967290
         digs, rerr = restart_digests(prop, seed, sel, jobs, hashseed, force)
         harness_errors.extend(rerr)
